@@ -205,6 +205,31 @@ def main():
         .rev("reject_ask", "exec", A1, 1).match("exec", A1, B1, "2", 5).modify("exec") \
         .query("get_contract_info").query("get_version_info").query("get_ask", A1).query("get_bid", B1).migrate() \
         .inst().create_ask("seller", [(5, "base")], A1, "base", "q", "2", 5).query("get_contract_info").write()
+    # migration of a legacy book: V2 bids whose logs hold fills, rejects with fee, refunds, two identical adjacent
+    # events; current-format bids whose ids sort before and after them; legacy-id asks; then exits and a fill
+    V2A, V2B, V2C = "30000000-0000-4000-8000-000000000001", "50000000000040008000000000000002", "70000000-0000-4000-8000-000000000003"
+    V3A, V3B = "20000000-0000-4000-8000-00000000000a", "60000000-0000-4000-8000-00000000000b"
+    for ver in ("0.16.2", "0.18.2", "0.19.0", "0.19.1", "0.16.1"):
+        h = H("c15_legacy_book_" + ver.replace(".", "_"), "migration of a mixed legacy book from " + ver + " migration").env()
+        h.lines += [
+            "SEEDCFG ats ~ base cv q appr exec feea=0.01 feeb=0.1 [] [] 0 10",
+            "SEEDVER ats_smart_contract " + ver,
+            "SEEDASK %s %s seller basic base q 2 100" % (enc(A1.replace("-", "")), enc(A1.replace("-", ""))),
+            "SEEDASK %s %s seller ready:appr:base:50 cv q 2 50" % (enc(A2), enc(A2)),
+            "SEEDBID3 %s %s buyer base 100 0 q 200 0 20:q 0 2" % (enc(V3A), enc(V3A)),
+            "SEEDBID2 %s %s buyer base 100 q 200 20:q 2 F:20:40:4;J:30:60:6" % (enc(V2A), enc(V2A)),
+            "SEEDBID2 %s %s buyer2 base 100 q 200 20:q 2 F:10:10:1;R:10:1;F:10:20:2;F:10:20:2" % (enc(V2B), enc(V2B)),
+            "SEEDBID3 %s %s buyer base 100 50 q 200 100 20:q 10 2" % (enc(V3B), enc(V3B)),
+            "SEEDBID2 %s %s buyer2 base 100 q 200 - 2 J:10:20:-;J:10:20:-" % (enc(V2C), enc(V2C)),
+        ]
+        h.migrate().migrate(probe=True).query("get_version_info")
+        for i in (V2A, V2B, V2C, V3A, V3B):
+            h.query("get_bid", i)
+        for i, o in ((V2A, "buyer"), (V2B, "buyer2"), (V2C, "buyer2"), (V3A, "buyer"), (V3B, "buyer")):
+            h.rev("cancel_bid", o, i, probe=True).rev("expire_bid", "exec", i, probe=True)
+        h.rev("cancel_ask", "seller", A1.replace("-", ""), probe=True).rev("expire_ask", "exec", A2, probe=True)
+        h.match("exec", A2, V2A, "2", 20).rev("reject_bid", "exec", V2A, 10).rev("cancel_bid", "buyer", V2A)
+        h.match("exec", A2, V2C, "2", 10).rev("reject_bid", "exec", V2B, 10).rev("cancel_bid", "buyer2", V2B).write()
     # known numeric classes (recorded findings): witnesses live in corpus/known/
     H("k_inexact_match", "K_inexact: precision 18, increment 1e18, price 0.999999999999999999, size 1e18+1").env() \
         .inst(precision=18, increment=10 ** 18) \
